@@ -5,7 +5,10 @@ import (
 	"context"
 	"encoding/binary"
 	"encoding/json"
+	"errors"
 	"fmt"
+	"github.com/cloudwego/gopkg/protocol/thrift/base"
+	"github.com/cloudwego/gopkg/protocol/thrift/unknownfields"
 	"github.com/cloudwego/gopkg/protocol/ttheader"
 	"math/rand"
 	"sort"
@@ -819,7 +822,173 @@ func headerMapsMonitor(c *Ctx) {
 	}
 }
 
+// structStringsMonitor: the strings inside what the struct decoders return (Base / BaseResp / ApplicationException fields,
+// map keys and values, unknown-field trees, method names of UnmarshalFastMsg) are decoded values as well: none of them
+// lives in the input, all of them survive its reuse; span cache off and on, lengths from every size class (Go monitor)
+func structStringsMonitor(c *Ctx) {
+	bp := thrift.Binary
+	inside := func(s string, in []byte) bool {
+		if len(s) < 2 || len(in) == 0 {
+			return false
+		}
+		p, lo := uintptr(unsafe.Pointer(unsafe.StringData(s))), dataPtr(in)
+		return p >= lo && p < lo+uintptr(len(in))
+	}
+	for _, span := range []bool{false, true} {
+		for _, n := range []int{2, 7, 31, 127, 128, 129, 1000, 4096, 70000, 131073} {
+			str := func(k int) string { return string(PatBytes(40+k, k, n)) }
+			bad := guarded(func() string {
+				thrift.SetSpanCache(span)
+				defer thrift.SetSpanCache(false)
+				// Base
+				b := &base.Base{LogID: str(1), Caller: str(2), Addr: str(3), Extra: map[string]string{str(4): str(5), "k": str(6)}}
+				in := thrift.FastMarshal(b)
+				nb := base.NewBase()
+				if err := thrift.FastUnmarshal(in, nb); err != nil {
+					return "Base: " + err.Error()
+				}
+				var all []string
+				all = append(all, nb.LogID, nb.Caller, nb.Addr)
+				for k, v := range nb.Extra {
+					all = append(all, k, v)
+				}
+				for _, x := range all {
+					if inside(x, in) {
+						return fmt.Sprintf("a string of %d bytes decoded by Base.FastRead lives inside the input", len(x))
+					}
+				}
+				for i := range in {
+					in[i] = '#'
+				}
+				if nb.LogID != str(1) || nb.Caller != str(2) || nb.Addr != str(3) || len(nb.Extra) != 2 || nb.Extra[str(4)] != str(5) || nb.Extra["k"] != str(6) {
+					return "Base fields changed when the input was reused"
+				}
+				// BaseResp + ApplicationException through a message
+				r := &base.BaseResp{StatusMessage: str(7), StatusCode: 3, Extra: map[string]string{str(8): str(9)}}
+				mname := str(10)
+				if len(mname) > 200 {
+					mname = mname[:200]
+				}
+				msg, _ := thrift.MarshalFastMsg(mname, thrift.REPLY, 9, r)
+				nr := base.NewBaseResp()
+				name, _, err := thrift.UnmarshalFastMsg(msg, nr)
+				if err != nil {
+					return "BaseResp message: " + err.Error()
+				}
+				if inside(name, msg) || inside(nr.StatusMessage, msg) {
+					return "a method name / status message decoded by UnmarshalFastMsg lives inside the input"
+				}
+				for i := range msg {
+					msg[i] = '#'
+				}
+				if name != mname || nr.StatusMessage != str(7) || nr.Extra[str(8)] != str(9) {
+					return "method name / BaseResp fields changed when the input was reused"
+				}
+				emsg, _ := thrift.MarshalFastMsg("m", thrift.EXCEPTION, 9, thrift.NewApplicationException(6, str(11)))
+				_, _, eerr := thrift.UnmarshalFastMsg(emsg, nil)
+				var ae *thrift.ApplicationException
+				if !errors.As(eerr, &ae) {
+					return "EXCEPTION message did not come back as an application exception"
+				}
+				if inside(ae.Msg(), emsg) {
+					return "an exception message decoded by UnmarshalFastMsg lives inside the input"
+				}
+				for i := range emsg {
+					emsg[i] = '#'
+				}
+				if ae.Msg() != str(11) {
+					return "the exception message changed when the input was reused"
+				}
+				// unknown-field tree: a string field, a binary-as-string inside a list, map keys and values
+				var uin []byte
+				uin = bp.AppendString(bp.AppendFieldBegin(uin, thrift.STRING, 1), str(12))
+				uin = bp.AppendListBegin(bp.AppendFieldBegin(uin, thrift.LIST, 2), thrift.STRING, 2)
+				uin = bp.AppendString(bp.AppendString(uin, str(13)), str(14))
+				uin = bp.AppendMapBegin(bp.AppendFieldBegin(uin, thrift.MAP, 3), thrift.STRING, thrift.STRING, 1)
+				uin = bp.AppendString(bp.AppendString(uin, str(15)), str(16))
+				fs, err := unknownfields.ConvertUnknownFields(uin)
+				if err != nil || len(fs) != 3 {
+					return "unknown fields did not convert"
+				}
+				// ... and through the reflective entry point: the holder's own bytes are then overwritten as well
+				holderBytes := append([]byte(nil), uin...)
+				gfs, gerr := unknownfields.GetUnknownFields(&withUnknown{A: 1, _unknownFields: holderBytes})
+				if gerr != nil || len(gfs) != 3 {
+					return "GetUnknownFields did not convert"
+				}
+				var gleaves []string
+				var gwalk func(f unknownfields.UnknownField)
+				gwalk = func(f unknownfields.UnknownField) {
+					switch v := f.Value.(type) {
+					case string:
+						gleaves = append(gleaves, v)
+					case []unknownfields.UnknownField:
+						for _, x := range v {
+							gwalk(x)
+						}
+					}
+				}
+				for _, f := range gfs {
+					gwalk(f)
+				}
+				for _, x := range gleaves {
+					if inside(x, holderBytes) {
+						return fmt.Sprintf("a string of %d bytes returned by GetUnknownFields lives inside the holder's bytes", len(x))
+					}
+				}
+				for i := range holderBytes {
+					holderBytes[i] = '#'
+				}
+				for i, x := range gleaves {
+					if x != []string{str(12), str(13), str(14), str(15), str(16)}[i] {
+						return "a string returned by GetUnknownFields changed when the holder's bytes were reused"
+					}
+				}
+				var leaves []string
+				var walk func(f unknownfields.UnknownField)
+				walk = func(f unknownfields.UnknownField) {
+					switch v := f.Value.(type) {
+					case string:
+						leaves = append(leaves, v)
+					case []unknownfields.UnknownField:
+						for _, x := range v {
+							walk(x)
+						}
+					}
+				}
+				for _, f := range fs {
+					walk(f)
+				}
+				for _, x := range leaves {
+					if inside(x, uin) {
+						return fmt.Sprintf("a string of %d bytes inside the unknown-field tree lives inside the input", len(x))
+					}
+				}
+				for i := range uin {
+					uin[i] = '#'
+				}
+				want := []string{str(12), str(13), str(14), str(15), str(16)}
+				if len(leaves) != len(want) {
+					return "unknown-field tree has the wrong number of string leaves"
+				}
+				for i := range want {
+					if leaves[i] != want[i] {
+						return "a string inside the unknown-field tree changed when the input was reused"
+					}
+				}
+				return ""
+			})
+			c.AddEvals(20)
+			if bad != "" {
+				c.GoViolation("structstr-C16", "indep/struct-strings", map[string]interface{}{"span": span, "n": n}, fmt.Sprintf("span=%v n=%d: %s", span, n, bad))
+				return
+			}
+		}
+	}
+}
+
 func init() {
+	goReplays["structstr-C16"] = func(c *Ctx, raw json.RawMessage) { structStringsMonitor(c) }
 	goReplays["hdrmaps-C16"] = func(c *Ctx, raw json.RawMessage) { headerMapsMonitor(c) }
 	goReplays["distinct-C16"] = func(c *Ctx, raw json.RawMessage) { manyDistinctMonitor(c) }
 }
@@ -872,6 +1041,7 @@ func checkC16(c *Ctx) {
 	c.TraceCheck(famIndep, cases)
 	manyDistinctMonitor(c)
 	headerMapsMonitor(c)
+	structStringsMonitor(c)
 	c.Assume("result regions are projected as (cluster, offset, len, cap) from real addresses; strings count with cap = len")
 }
 
